@@ -25,6 +25,17 @@ GEN_SPEC = {"imports": ["From God Require Import C11.GenEnv."], "items": [
     {"kind": "func", "file": "lib/store/sqlx/conn.go", "name": "commonConn.acceptable", "as": "acceptable",
      "calls": {"db.accept": "ext_accept"}},
     {"kind": "const", "file": "lib/store/sqlx/orm.go", "name": "tagName"},
+    {"kind": "calls", "file": "lib/store/sqlc/cachedsql.go", "func": "CachedConn.TransactCtx", "as": "cached_transactctx_skeleton"},
+    {"kind": "calls", "file": "lib/store/sqlc/cachedsql.go", "func": "CachedConn.Transact", "as": "cached_transact_skeleton"},
+    {"kind": "calls", "file": "lib/store/sqlx/conn.go", "func": "commonConn.Transact", "as": "conn_transact_skeleton"},
+    {"kind": "calls", "file": "lib/store/sqlx/stmt.go", "func": "exec", "as": "stmt_exec_skeleton"},
+    {"kind": "calls", "file": "lib/store/sqlx/stmt.go", "func": "execStmt", "as": "stmt_execstmt_skeleton"},
+    {"kind": "calls", "file": "lib/store/sqlx/stmt.go", "func": "query", "as": "stmt_query_skeleton"},
+    {"kind": "calls", "file": "lib/store/sqlx/stmt.go", "func": "queryStmt", "as": "stmt_querystmt_skeleton"},
+    {"kind": "calls", "file": "lib/store/sqlx/stmt.go", "func": "nilGuard.finish", "as": "nilguard_finish_skeleton"},
+    {"kind": "calls", "file": "lib/store/sqlx/stmt.go", "func": "nilGuard.start", "as": "nilguard_start_skeleton"},
+    {"kind": "calls", "file": "lib/store/sqlx/stmt.go", "func": "newGuard", "as": "newguard_skeleton"},
+    {"kind": "calls", "file": "lib/store/sqlx/tx.go", "func": "txSession.ExecCtx", "as": "tx_execctx_skeleton"},
 ]}
 # (method -> strict literal handed to unmarshalRow(s)) for every receiver, and plain form -> Ctx form
 RECVS = [("conn", "commonConn", "lib/store/sqlx/conn.go"), ("stmt", "statement", "lib/store/sqlx/conn.go"),
@@ -40,22 +51,34 @@ QUICK_N = 300          # orm base cases (each run through the 4 entry point fami
 THOROUGH_N = 5000
 SHARD = 400
 DRIVER_TIMEOUT = 600
-RULE = ("tx: all 8 begin/commit/rollback fault combinations x all bodies of 0-2 statements (each ok / failing with the "
-        "body returning, ignoring or panicking) x final outcome nil/err/panic (504 cases, exhaustive) plus random bodies "
-        "of 3-6 statements, via Transact or TransactCtx on a recording SQL driver; "
+RULE = ("tx: all 8 begin/commit/rollback fail-or-not combinations x all bodies of 0-2 statements (each ok / failing with the "
+        "body returning, ignoring or panicking) x final outcome nil/err/panic (504 cases, exhaustive over this structure; the KIND "
+        "of each fault drawn from {driver's own error, driver.ErrBadConn, sql.ErrConnDone, sql.ErrTxDone, context.Canceled, "
+        "context.DeadlineExceeded}, the statement operation from {Exec, Prepare+Exec, QueryRow}, the wrapper from {sqlx Transact, "
+        "TransactCtx, sqlc.CachedConn Transact, TransactCtx} and the log switches {all on, DisableStmtLog, DisableLog} x {normal, every "
+        "statement slow} at random), plus a sweep of every fault kind at every site (Begin incl. 1/2/3/5 bad-connection attempts, "
+        "Commit, Rollback, each statement operation x reaction - statement faults under ALL 6 switch settings, through sqlx and "
+        "through sqlc each; 702 cases), plus random bodies of 3-6 statements, on a recording SQL driver; "
         "orm: random destination shapes (int64/string/sql.NullInt64/plain-struct fields, pointer fields, embedded "
-        "structs to depth 2, all-tagged / untagged / mixed, tag options, rare duplicate tags; primitives; slices of "
-        "values or pointers; unsupported destinations) x result sets (columns = permuted subset of the tags plus "
-        "extras, or arity nf-2..nf+1 for untagged; 0-3 rows; cells typed for the intended field with 15% noise incl. "
-        "NULL) x strict/partial x row/rows, plus permutation families of the same (shape, rows); every orm case is run "
-        "(together with a fixed arity/order boundary stream of 24 cases x 4 entry points x plain/Ctx) "
-        "through all 4 entry point families (conn, stmt on conn, tx session, stmt on tx session), plain or Ctx form at random; "
-        "non-trivial = tx case that began, or orm case with at least one row reaching a struct/primitive destination; "
+        "structs to depth 2; fully tagged 45% / untagged 25% / MIXED 30%: some top-level fields tagged, tagged outer fields with an "
+        "untagged embedded struct, untagged outer fields with a tagged embedded struct; tag options, rare duplicate tags; primitives; "
+        "slices of values or pointers; unsupported destinations) x result sets (columns = permuted subset of the tags plus "
+        "extras, or arity nf-2..nf+1 for positional shapes, optionally named after the tags; 0-3 rows; cells typed for the intended "
+        "field with 15% noise incl. NULL, 40% of the row sets free of zero-valued cells) x strict/partial x row/rows, plus permutation "
+        "families of the same (shape, rows); every orm case is run (together with a fixed arity/order boundary stream of 60 cases x 4 "
+        "entry points x plain/Ctx, incl. three mixed shapes) through all 4 entry point families (conn, stmt on conn, tx session, stmt on "
+        "tx session), plain or Ctx form at random; "
+        "non-trivial = tx case in which a Begin succeeded, or orm case with at least one row reaching a struct/primitive destination; "
         "distinct = distinct canonical case JSON")
 TRUSTED = ["database/sql Rows.Scan / convertAssign for int64, string, sql.NullInt64 and struct destinations "
            "(Model.conv, Model.scan); generated strings are non-numeric so string->int64 always fails",
            "go-sqlmock delivers the rows it was given; the recording SQL driver in verif_driver_test.go logs every "
            "Begin/Exec/Commit/Rollback it receives",
+           "database/sql's handling of driver.ErrBadConn: DB.BeginTx retried (3 attempts in all), Stmt.ExecContext of a prepared "
+           "statement retried (3 attempts, also inside a transaction), Tx.ExecContext/QueryContext/Commit/Rollback not retried "
+           "(Model.begin_calls, Model.stmt_calls; faults other than at Begin are persistent)",
+           "internal/verifsql (recording SQL driver + body-script interpreter shared by the sqlx and sqlc drivers) and "
+           "sqlx.VerifSetSwitches (build tag verif; sets/restores logSQL, logSlowSQL, slowThreshold)",
            "googleBreaker lets every call of a fresh connection through (passed = true in the cases; the rejected branch "
            "is covered by c11_breaker_rejected only)"]
 ASSUMPTIONS = ["db.provider() of NewConnFromDB cannot fail (transact's provider-error branch is not exercised)",
@@ -64,24 +87,105 @@ ASSUMPTIONS = ["db.provider() of NewConnFromDB cannot fail (transact's provider-
                "destinations start as the zero value; unexported fields and pointer-to-pointer fields are not generated"]
 
 # ------------------------------------------------------------------------------------------ tx
+FKINDS = ["gen", "badconn", "conndone", "txdone", "canceled", "deadline"]
+OPS = ["exec", "pexec", "query"]
+APIS = ["transact", "transactctx", "cached", "cachedctx"]
+# statement prototypes of the exhaustive part: ok / failing with the body returning, ignoring, panicking
 STMT_KINDS = [
-    {"fail": False, "react": "return", "p": 0},
-    {"fail": True, "react": "return", "p": 0},
-    {"fail": True, "react": "ignore", "p": 0},
-    {"fail": True, "react": "panic", "p": 3},
+    {"fault": "none", "react": "return", "p": 0},
+    {"fault": "gen", "react": "return", "p": 0},
+    {"fault": "gen", "react": "ignore", "p": 0},
+    {"fault": "gen", "react": "panic", "p": 3},
 ]
 FINALS = [{"k": "nil", "n": 0}, {"k": "err", "n": 7}, {"k": "panic", "n": 9}]
 
 
+def rkind(rng):
+    return "gen" if rng.random() < 0.35 else rng.choice(FKINDS[1:])
+
+
+def settings(rng):
+    return {"api": rng.choice(APIS), "log": rng.randrange(3), "slow": rng.random() < 0.5}
+
+
+def begin_fault(rng, fail):
+    if not fail:
+        # a connection that is bad once or twice and then fine still begins
+        return {"k": "badconn", "n": rng.choice([1, 2])} if rng.random() < 0.15 else {"k": "none", "n": 0}
+    k = rkind(rng)
+    return {"k": k, "n": rng.choice([3, 4]) if k == "badconn" else 1}
+
+
+def mk_stmt(rng, proto):
+    s = dict(proto)
+    s["op"] = rng.choice(OPS)
+    if s["fault"] != "none":
+        s["fault"] = rkind(rng)
+    return s
+
+
 def tx_exhaustive(rng):
+    """all begin/commit/rollback fail-or-not combinations x all bodies of 0-2 statements x final outcome;
+    the KIND of every fault, the statement operation, the wrapper and the log switches are drawn at random"""
     out = []
     for b, c, r in itertools.product([False, True], repeat=3):
         for n in (0, 1, 2):
             for stmts in itertools.product(STMT_KINDS, repeat=n):
                 for fin in FINALS:
-                    out.append({"t": "tx", "begin": b, "commit": c, "rollback": r, "stmts": [dict(s) for s in stmts],
-                                "final": dict(fin), "api": rng.choice(["transact", "transactctx"])})
+                    d = {"t": "tx", "begin": begin_fault(rng, b), "commit": rkind(rng) if c else "none",
+                         "rollback": rkind(rng) if r else "none", "stmts": [mk_stmt(rng, x) for x in stmts],
+                         "final": dict(fin)}
+                    d.update(settings(rng))
+                    out.append(d)
     return out
+
+
+LOGSETS = [(log, slow) for log in (0, 1, 2) for slow in (False, True)]
+
+
+def tx_sweep(rng):
+    """every fault kind at every site; statement faults under every log-switch setting, through the sqlx conn and
+    through sqlc.CachedConn"""
+    out = []
+
+    def add(d, sets):
+        for log, slow in sets:
+            for api in (rng.choice(APIS[:2]), rng.choice(APIS[2:])):
+                e = json_copy(d)
+                e.update({"api": api, "log": log, "slow": slow})
+                out.append(e)
+
+    base = {"t": "tx", "begin": {"k": "none", "n": 0}, "commit": "none", "rollback": "none", "stmts": [],
+            "final": {"k": "nil", "n": 0}}
+    one = lambda: [rng.choice(LOGSETS)]
+    for k in FKINDS:
+        for n in ([1, 2, 3, 5] if k == "badconn" else [1]):
+            d = json_copy(base)
+            d["begin"] = {"k": k, "n": n}
+            d["stmts"] = [{"op": "exec", "fault": "none", "react": "return", "p": 0}]
+            add(d, one())
+        d = json_copy(base)
+        d["commit"] = k
+        add(d, one())
+        for fin in FINALS[1:]:
+            d = json_copy(base)
+            d["rollback"] = k
+            d["final"] = dict(fin)
+            add(d, one())
+        for op in OPS:
+            for react in ("return", "ignore", "panic"):
+                d = json_copy(base)
+                d["stmts"] = [{"op": rng.choice(OPS), "fault": "none", "react": "return", "p": 0},
+                              {"op": op, "fault": k, "react": react, "p": 5}]
+                if rng.random() < 0.3:
+                    d["rollback"] = rkind(rng)
+                add(d, LOGSETS)
+    return out
+
+
+def json_copy(x):
+    import json
+    return json.loads(json.dumps(x))
 
 
 def tx_random(rng, n):
@@ -89,14 +193,16 @@ def tx_random(rng, n):
     for _ in range(n):
         stmts = []
         for _ in range(rng.randint(3, 6)):
-            s = dict(rng.choice(STMT_KINDS + [STMT_KINDS[0]] * 3))
+            s = mk_stmt(rng, rng.choice(STMT_KINDS + [STMT_KINDS[0]] * 3))
             if s["react"] == "panic":
                 s["p"] = rng.randrange(50)
             stmts.append(s)
         fin = dict(rng.choice(FINALS))
         fin["n"] = rng.randrange(50) if fin["k"] != "nil" else 0
-        out.append({"t": "tx", "begin": rng.random() < 0.1, "commit": rng.random() < 0.4, "rollback": rng.random() < 0.4,
-                    "stmts": stmts, "final": fin, "api": rng.choice(["transact", "transactctx"])})
+        d = {"t": "tx", "begin": begin_fault(rng, rng.random() < 0.1), "commit": rkind(rng) if rng.random() < 0.4 else "none",
+             "rollback": rkind(rng) if rng.random() < 0.4 else "none", "stmts": stmts, "final": fin}
+        d.update(settings(rng))
+        out.append(d)
     return out
 
 
@@ -142,7 +248,17 @@ def tag_name(f):
     return f["tag"].split(",")[0]
 
 
-def gen_cell(rng, kind, noise=0.15):
+def gen_cell(rng, kind, noise=0.15, nonzero=False):
+    if nonzero:
+        if kind == "int" or kind == "nint":
+            return rng.randrange(1, 1000)
+        if kind == "str":
+            return rng.choice(["s%d" % rng.randrange(1000), rng.randrange(1, 100)])
+        return rng.randrange(1, 50)
+    return gen_cell0(rng, kind, noise)
+
+
+def gen_cell0(rng, kind, noise=0.15):
     if kind is None or rng.random() < noise:
         return rng.choice([None, rng.randrange(-50, 1000), "s%d" % rng.randrange(100), "", -1, 0])
     if kind == "int":
@@ -154,12 +270,45 @@ def gen_cell(rng, kind, noise=0.15):
     return rng.choice([None, 1, "o"])
 
 
+def all_tags(fs):
+    out = []
+    for f in fs:
+        if tag_name(f):
+            out.append(tag_name(f))
+        if "emb" in f:
+            out.extend(all_tags(f["emb"]))
+    return out
+
+
+def gen_mixed_fields(rng, pool):
+    """the three mixed-tagging families: some top-level fields tagged and some not; tagged outer fields
+    next to an untagged embedded struct; untagged outer fields around an embedded struct with tagged fields"""
+    fam = rng.choice(["top", "tagged-outer", "untagged-outer"])
+    if fam == "top":
+        while True:
+            fs = gen_fields(rng, 0, "mixed", pool, n=rng.randint(2, 4))
+            tags = [bool(tag_name(f)) for f in fs]
+            if any(tags) and not all(tags):
+                return fs
+    leaf = lambda tag: {"tag": tag, "ptr": rng.random() < 0.3, "k": rng.choice(KINDS[:-1])}
+    if fam == "tagged-outer":
+        fs = [leaf(pool.pop()) for _ in range(rng.randint(1, 3))]
+        inner_tagged = rng.random() < 0.4
+        emb = {"tag": "", "ptr": rng.random() < 0.4, "emb": [leaf(pool.pop() if inner_tagged else "") for _ in range(rng.randint(1, 2))]}
+        fs.insert(rng.randint(0, len(fs)), emb)
+        return fs
+    fs = [leaf("") for _ in range(rng.randint(1, 3))]
+    emb = {"tag": rng.choice(["", "", pool.pop()]), "ptr": rng.random() < 0.4, "emb": [leaf(pool.pop()) for _ in range(rng.randint(1, 2))]}
+    fs.insert(rng.randint(0, len(fs)), emb)
+    return fs
+
+
 def gen_struct_case(rng):
     r = rng.random()
-    tagmode = "all" if r < 0.55 else ("none" if r < 0.88 else "mixed")
+    tagmode = "all" if r < 0.45 else ("none" if r < 0.70 else "mixed")
     pool = TAGS[:]
     rng.shuffle(pool)
-    fs = gen_fields(rng, 0, tagmode, pool)
+    fs = gen_mixed_fields(rng, pool) if tagmode == "mixed" else gen_fields(rng, 0, tagmode, pool)
     if tagmode == "all" and len(fs) > 1 and rng.random() < 0.05:
         fs[-1]["tag"] = fs[0]["tag"]                       # duplicate tag
     kinds = flatten(fs)
@@ -179,8 +328,15 @@ def gen_struct_case(rng):
         rng.shuffle(cols)
         ckinds = [named.get(c) for c in cols]
     else:
-        nc = max(1, rng.choice([nf, nf, nf, nf - 1, nf - 2, nf + 1]))
+        if tagmode == "mixed":
+            nc = max(1, rng.choice([nf, nf, nf, nf, nf - 1, nf + 1]))
+        else:
+            nc = max(1, rng.choice([nf, nf, nf, nf - 1, nf - 2, nf + 1]))
         cols = ["c%d" % i for i in range(nc)]
+        if tagmode == "mixed" and rng.random() < 0.6:
+            # name the columns after the tags that exist (in field order or shuffled): the code ignores them
+            tags = all_tags(fs)
+            cols = [(tags[i] if i < len(tags) else "c%d" % i) for i in range(nc)]
         if rng.random() < 0.3:
             rng.shuffle(cols)
         ckinds = [(kinds[i] if i < nf else None) for i in range(nc)]
@@ -190,7 +346,8 @@ def gen_struct_case(rng):
 def gen_rows(rng, ckinds):
     nrows = rng.choice([0, 1, 1, 1, 1, 2, 3])
     noise = rng.choice([0.0, 0.0, 0.15, 0.3])
-    return [[gen_cell(rng, k, noise) for k in ckinds] for _ in range(nrows)]
+    nonzero = rng.random() < 0.4                       # rows without zero-valued cells (no-field-left-zero clause)
+    return [[gen_cell(rng, k, noise, nonzero) for k in ckinds] for _ in range(nrows)]
 
 
 def gen_orm(rng):
@@ -241,6 +398,7 @@ def generate(rng, tier, n):
     cases = []
     if tier != "search":
         cases += tx_exhaustive(rng)
+        cases += tx_sweep(rng)
         cases += tx_random(rng, 60 if tier == "quick" else 600)
     else:
         cases += tx_random(rng, 40)
@@ -283,8 +441,18 @@ def boundary_orm():
     out = []
     two = [{"tag": "a", "ptr": False, "k": "int"}, {"tag": "b", "ptr": False, "k": "int"}]
     two_u = [{"tag": "", "ptr": False, "k": "int"}, {"tag": "", "ptr": False, "k": "int"}]
+    mixed = [
+        [{"tag": "a", "ptr": False, "k": "int"}, {"tag": "", "ptr": False, "k": "int"}],
+        [{"tag": "a", "ptr": False, "k": "int"}, {"tag": "", "ptr": False, "emb": [{"tag": "", "ptr": False, "k": "int"}]}],
+        [{"tag": "", "ptr": False, "k": "int"}, {"tag": "", "ptr": True, "emb": [{"tag": "b", "ptr": False, "k": "int"}]}],
+    ]
     for strict in (False, True):
         for mode, d in (("row", "elem"), ("rows", "slice")):
+            for m in mixed:
+                shm = {"d": d, "ptr": False, "e": {"fs": m}}
+                out.append({"t": "orm", "mode": mode, "strict": strict, "shape": shm, "cols": ["b", "a"], "rows": [[1, 2]]})
+                out.append({"t": "orm", "mode": mode, "strict": strict, "shape": shm, "cols": ["a", "b"], "rows": [[3, 4]]})
+                out.append({"t": "orm", "mode": mode, "strict": strict, "shape": shm, "cols": ["a"], "rows": [[5]]})
             sh = {"d": d, "ptr": False, "e": {"fs": two}}
             shu = {"d": d, "ptr": False, "e": {"fs": two_u}}
             out.append({"t": "orm", "mode": mode, "strict": strict, "shape": sh, "cols": ["b", "a"], "rows": [[1, 2]]})
@@ -301,20 +469,59 @@ def search(rng, problems):
     out = []
     for b, c, r in itertools.product([False, True], repeat=3):
         for fin in FINALS:
-            out.append({"t": "tx", "begin": b, "commit": c, "rollback": r, "stmts": [], "final": dict(fin), "api": "transact"})
-            out.append({"t": "tx", "begin": b, "commit": c, "rollback": r, "stmts": [dict(STMT_KINDS[0])], "final": dict(fin),
-                        "api": "transactctx"})
+            for stmts in ([], [dict(STMT_KINDS[0])], [dict(STMT_KINDS[1])]):
+                d = {"t": "tx", "begin": begin_fault(rng, b), "commit": rkind(rng) if c else "none",
+                     "rollback": rkind(rng) if r else "none", "stmts": [mk_stmt(rng, x) for x in stmts], "final": dict(fin)}
+                d.update(settings(rng))
+                out.append(d)
+    out += tx_sweep(rng)
     out += boundary_orm()
     return via_all(rng, out)
 
 
+# ------------------------------------------------------------------------------------------ drive
+def drive(cases, tier):
+    """tx cases whose api is cached/cachedctx run in lib/store/sqlc (TestVerifDriverC11), everything else in
+    lib/store/sqlx (TestVerifDriver); observations are merged back in case order"""
+    import vlib
+    idx_c = [i for i, c in enumerate(cases) if c["t"] == "tx" and c.get("api", "").startswith("cached")]
+    idx_x = [i for i in range(len(cases)) if i not in set(idx_c)]
+    obs = [None] * len(cases)
+    logs = []
+    for name, pkg, run, idx in (("C11x" + tier[0], "./lib/store/sqlx", "^TestVerifDriver$", idx_x),
+                                ("C11c" + tier[0], "./lib/store/sqlc", "^TestVerifDriverC11$", idx_c)):
+        if not idx:
+            continue
+        o, log = vlib.run_driver(pkg, [cases[i] for i in idx], name=name, timeout=DRIVER_TIMEOUT, run=run)
+        logs.append(log[-3000:])
+        if o is None:
+            return None, "\n".join(logs)
+        for i, x in zip(idx, o):
+            obs[i] = x
+    return obs, "\n".join(logs)
+
+
 # ------------------------------------------------------------------------------------------ encode
 SENT = {"begin": "EBegin", "commit": "ECommit", "rollback": "ERollback", "unavailable": "EUnavailable"}
+FK = {"badconn": "KBadConn", "conndone": "KConnDone", "txdone": "KTxDone", "canceled": "KCanceled", "deadline": "KDeadline"}
+KIND_MSG = {"driver: bad connection": "badconn", "sql: connection is already closed": "conndone",
+            "sql: transaction has already been committed or rolled back": "txdone",
+            "context canceled": "canceled", "context deadline exceeded": "deadline"}
+
+
+def fault_term(k):
+    if k in ("", "none", None):
+        return "FNone"
+    if k == "gen":
+        return "FGen"
+    return "(FKind %s)" % FK[k]
 
 
 def sent_term(name):
     if name in SENT:
         return SENT[name]
+    if name in FK:
+        return "(EKind %s)" % FK[name]
     m = re.match(r"^(exec|body):(\d+)$", name or "")
     if m and int(m.group(2)) < 5000:
         return "(%s %s)" % ("EExec" if m.group(1) == "exec" else "EBody", cnat(int(m.group(2))))
@@ -322,6 +529,8 @@ def sent_term(name):
 
 
 def msg_term(msg):
+    if msg in KIND_MSG:
+        return sent_term(KIND_MSG[msg])
     m = re.match(r"^E:(.+)$", msg)
     return (sent_term(m.group(1)) if m else None) or "EOther"
 
@@ -367,8 +576,16 @@ def final_term(f):
     return "(OPanic %s)" % cnat(f["n"])
 
 
+SOP = {"exec": "SExec", "pexec": "SPrepExec", "query": "SQuery"}
+
+
+def switches_term(c):
+    log = c.get("log", 0)
+    return "(mkswitches %s %s %s)" % (cbool(log == 0), cbool(log != 2), cbool(c.get("slow", False)))
+
+
 def encode_tx(c, o):
-    stmts = clist(["mkstmt %s %s" % (cbool(s["fail"]), react_term(s)) for s in c["stmts"]])
+    stmts = clist(["mkstmt %s %s %s" % (SOP[s.get("op", "exec")], fault_term(s["fault"]), react_term(s)) for s in c["stmts"]])
     esc = o.get("escaped")
     if "driver_panic" in o or "error" in o:
         esc_t = "(Some 4999%nat)"
@@ -377,9 +594,12 @@ def encode_tx(c, o):
     else:
         m = re.match(r"^P:(\d+)$", esc)
         esc_t = "(Some %s)" % cnat(int(m.group(1)) if m and int(m.group(1)) < 4999 else 4999)
-    return "CTx (mkfaults %s %s %s) (mkbody %s %s) %s %s %s" % (
-        cbool(c["begin"]), cbool(c["commit"]), cbool(c["rollback"]), stmts, final_term(c["final"]),
-        err_term(o.get("err")), clist([call_term(s) for s in o.get("calls", [])]), esc_t)
+    faults = "(mkfaults %s %s %s %s)" % (fault_term(c["begin"]["k"]), cnat(min(int(c["begin"].get("n", 0)), 4000)),
+                                         fault_term(c["commit"]), fault_term(c["rollback"]))
+    return "CTx %s %s %s (mkbody %s %s) %s %s %s %s %s" % (
+        cbool(c.get("api", "transact").startswith("cached")), switches_term(c), faults, stmts, final_term(c["final"]),
+        err_term(o.get("err")), clist([call_term(s) for s in o.get("calls", [])]), esc_t,
+        cnat(min(int(o.get("runs", 0)), 4000)), clist([cbool(x) for x in o.get("seen", [])]))
 
 
 KIND = {"int": "KInt", "str": "KStr", "nint": "KNInt", "opaque": "KOpaque"}
@@ -452,7 +672,8 @@ def tx_obs_term(o):
         r = "(Some (EPanic 0%nat))"
     else:
         r = "(Some EOther)"
-    return "(Some (%s, %s, %s))" % (r, clist([call_term(x) for x in t.get("calls", [])]), cbool(t.get("escaped", False)))
+    return "(Some (%s, %s, %s, %s))" % (r, clist([call_term(x) for x in t.get("calls", [])]), cbool(t.get("escaped", False)),
+                                       cnat(min(int(t.get("runs", 0)), 4000)))
 
 
 def encode_orm(c, o):
@@ -471,7 +692,7 @@ def encode(case, obs):
 # ------------------------------------------------------------------------------------------ evidence
 def nontrivial(case, obs):
     if case["t"] == "tx":
-        return not case["begin"]
+        return any(c.startswith("begin:ok") for c in obs.get("calls", []))
     e = case["shape"]["e"]
     good = (case["mode"] == "rows") == (case["shape"]["d"] == "slice")
     return good and bool(case["rows"]) and not e.get("other")
@@ -480,7 +701,12 @@ def nontrivial(case, obs):
 def bucket(case, obs):
     if case["t"] == "tx":
         out = ["tx", "tx:stmts=%d" % min(len(case["stmts"]), 3), "tx:final=" + case["final"]["k"],
-               "tx:faults=%d%d%d" % (case["begin"], case["commit"], case["rollback"])]
+               "tx:begin=" + case["begin"]["k"], "tx:commit=" + case["commit"], "tx:rollback=" + case["rollback"],
+               "tx:api=" + case.get("api", "transact"), "tx:log=%d%s" % (case.get("log", 0), "+slow" if case.get("slow") else "")]
+        for st in case["stmts"]:
+            if st["fault"] != "none":
+                out.append("tx:stmt-fault=%s/%s" % (st["op"], st["fault"]))
+        out.append("tx:runs=%s" % obs.get("runs"))
         calls = obs.get("calls", [])
         out.append("tx:terminal=" + ("commit" if any(c.startswith("commit") for c in calls) else
                                      "rollback" if any(c.startswith("rollback") for c in calls) else "none"))
@@ -496,7 +722,7 @@ def bucket(case, obs):
     if e.get("fs") is not None:
         fs = e["fs"]
         tags = [tag_name(f) for f in fs]
-        out.append("orm:tagged" if fs and all(tags) else ("orm:untagged" if not any(f["tag"] for f in fs) else "orm:mixed"))
+        out.append("orm:tagged" if fs and all(tags) else ("orm:untagged" if not all_tags(fs) else "orm:mixed"))
         if any("emb" in f for f in fs):
             out.append("orm:embedded")
         out.append("orm:cols%sfields" % ("<" if len(case["cols"]) < len(flatten(fs)) else ">" if len(case["cols"]) > len(flatten(fs)) else "="))
